@@ -15,6 +15,7 @@ package decoder
 //@   ensures result1 == nil ==> sameblock(row.Log, data) && off(row.Log) + len(row.Log) <= off(data) + len(data)
 //@   ensures result1 == nil && !row.IsPartial ==> off(row.Log) + len(row.Log) == off(data) + len(data)
 //@   ensures result1 == nil && row.IsPartial ==> off(row.Log) + len(row.Log) + 1 >= off(data) + len(data)
+//@   ensures result1 == nil && row.IsPartial && len(data) > 0 && data[len(data) - 1] != '\n' ==> off(row.Log) + len(row.Log) == off(data) + len(data)
 //@   ensures result1 == nil ==> off(row.Time) + len(row.Time) < off(row.Stream) && off(row.Stream) + len(row.Stream) < off(row.Log)
 //@   loop 1 invariant sameblock(data, old(data)) && off(data) + len(data) == off(old(data)) + len(old(data)) && off(data) > off(old(data)) + len(row.Time)
 //@   loop 1 invariant isnil(stream) || (sameblock(stream, data) && nochr(stream, ' ') && off(stream) + len(stream) < off(data) && off(stream) > off(row.Time) + len(row.Time))
